@@ -603,17 +603,29 @@ func (z *E6) SetBytes(e []byte) error {
 		return errors.New("invalid buffer size")
 	}
 	offset := 0
-	z.B1.A2.SetBytes(e[offset : offset+fp.Bytes])
+	if err := z.B1.A2.SetBytesCanonical(e[offset : offset+fp.Bytes]); err != nil {
+		return err
+	}
 	offset += fp.Bytes
-	z.B1.A1.SetBytes(e[offset : offset+fp.Bytes])
+	if err := z.B1.A1.SetBytesCanonical(e[offset : offset+fp.Bytes]); err != nil {
+		return err
+	}
 	offset += fp.Bytes
-	z.B1.A0.SetBytes(e[offset : offset+fp.Bytes])
+	if err := z.B1.A0.SetBytesCanonical(e[offset : offset+fp.Bytes]); err != nil {
+		return err
+	}
 	offset += fp.Bytes
-	z.B0.A2.SetBytes(e[offset : offset+fp.Bytes])
+	if err := z.B0.A2.SetBytesCanonical(e[offset : offset+fp.Bytes]); err != nil {
+		return err
+	}
 	offset += fp.Bytes
-	z.B0.A1.SetBytes(e[offset : offset+fp.Bytes])
+	if err := z.B0.A1.SetBytesCanonical(e[offset : offset+fp.Bytes]); err != nil {
+		return err
+	}
 	offset += fp.Bytes
-	z.B0.A0.SetBytes(e[offset : offset+fp.Bytes])
+	if err := z.B0.A0.SetBytesCanonical(e[offset : offset+fp.Bytes]); err != nil {
+		return err
+	}
 
 	return nil
 }
